@@ -38,15 +38,23 @@ static char F_A2[] = "fileA.c";          // same text, different address: the sa
 static char F_B[] = "fileB.c";
 static char F_AP[] = "fileA.cpp";        // "fileA.c" is a proper prefix
 static char F_DIR[] = "dir/fileA.c";     // "fileA.c" is a proper suffix
+// long build-tree paths (as __FILE__ spells them in an out-of-tree build) that agree in their first 80 characters
+static char F_LA[] = "/home/builder/workspace/product/firmware/components/connectivity/transport/source/session_alpha.c";
+static char F_LB[] = "/home/builder/workspace/product/firmware/components/connectivity/transport/source/session_beta.c";
+// two scratch names, rewritten by the name-discrimination section for every case (ids 7 and 8)
+static const int NAME_PMAX = 272;
+static char DYN_X[NAME_PMAX + 32], DYN_Y[NAME_PMAX + 32];
 static const Loc LOCS[] = {
     { F_A1, 10, 0, "A10" }, { F_A1, 11, 1, "A11" }, { F_B, 10, 2, "B10" }, { F_A2, 10, 0, "A10alias" }, { F_AP, 10, 3, "Acpp10" }, { F_DIR, 10, 4, "dirA10" },
+    { F_LA, 10, 5, "longAlpha10" }, { F_LB, 10, 6, "longBeta10" }, { DYN_X, 10, 7, "X10" }, { DYN_Y, 10, 8, "Y10" },
 };
-static const int NLOC = 6, NLOCID = 5;
+static const int NLOC = 10, NLOC_RANDOM = 8, NLOCID = 9;
+enum { L_DYN_X = 8, L_DYN_Y = 9 };
 
 // ================================================================ model (independent of the implementation)
 struct MDes { bool isLoc; int n; int locid; bool fired; };
 struct Model {
-    int count = 0; int cnt[NLOCID] = { 0, 0, 0, 0, 0 }; int clears = 0;
+    int count = 0; int cnt[NLOCID] = {}; int clears = 0;
     std::vector<MDes> des;
     // returns bit 1: a global designation hit, bit 2: a location designation hit
     int alloc(int locid) {
@@ -102,6 +110,7 @@ struct Builder {
     int n = 0;
     std::vector<std::vector<std::string>> accept;   // per CHECK step: texts naming a pending designation
     bool overflow = false;
+    std::string note;      // extra JSON object describing how the case was derived (sections that decode an index)
     Builder(int mode_, int nalloc_, const int* route_, bool ts_) : mode(mode_), ts(ts_), nalloc(nalloc_) { for (int g = 0; g < 3; g++) route[g] = route_ ? route_[g] : -1; accept.resize(MAXSTEPS); }
     Step* push(int kind) { if (n >= MAXSTEPS) { overflow = true; return &g_steps[MAXSTEPS - 1]; } Step* s = &g_steps[n++]; memset((void*) s, 0, sizeof *s); s->kind = kind; s->a = -1; s->L = -1; return s; }
     void reg(int a, bool isLoc, int num, int L) {
@@ -123,9 +132,8 @@ struct Builder {
     void check(int a) {
         int at = n; Step* s = push(K_CHECK); s->a = a; s->pend = model[a].pending(); s->exp_checkfail = s->pend != 0; s->after_clear = model[a].clears > 0;
         if (at < MAXSTEPS) for (const MDes& d : model[a].des) if (!d.fired) {
-            char b[160];
-            if (d.isLoc) { for (int L = 0; L < NLOC; L++) if (LOCS[L].id == d.locid) { snprintf(b, sizeof b, "Expected failing alloc at %s:%d was never done", LOCS[L].file, (int) LOCS[L].line); accept[at].push_back(b); } }
-            else { snprintf(b, sizeof b, "Expected allocation number %d was never done", d.n); accept[at].push_back(b); }
+            if (d.isLoc) { for (int L = 0; L < NLOC; L++) if (LOCS[L].id == d.locid) accept[at].push_back(std::string("Expected failing alloc at ") + LOCS[L].file + ":" + std::to_string((int) LOCS[L].line) + " was never done"); }
+            else accept[at].push_back("Expected allocation number " + std::to_string(d.n) + " was never done");
         }
     }
     void clear(int a) { Step* s = push(K_CLEAR); s->a = a; model[a].clear(); }
@@ -145,7 +153,7 @@ struct Builder {
         }
         return vf::J().k("mode", mode == MODE_DIRECT ? "direct" : "installed").k("allocators", nalloc)
             .raw("route_new_newarr_malloc", vf::jarr({ std::to_string(route[0]), std::to_string(route[1]), std::to_string(route[2]) })).k("threadsafe_overloads", ts)
-            .raw("steps", vf::jarr(it)).str();
+            .raw("derivation", note.empty() ? std::string("null") : note).raw("steps", vf::jarr(it)).str();
     }
 };
 
@@ -342,7 +350,7 @@ static void run_and_judge(vf::Ctx& c, Builder& b, const std::string& ntsig, bool
 // non-trivial rule: an allocator sees >= 2 locations and has a location designation, or has >= 2 designations on one location
 static bool rule_nontrivial(const Builder& b) {
     for (int a = 0; a < 2; a++) {
-        std::set<int> locs; int ndl = 0; int per[NLOCID] = { 0, 0, 0, 0, 0 };
+        std::set<int> locs; int ndl = 0; int per[NLOCID] = {};
         for (int i = 0; i < b.n; i++) {
             const Step& s = g_steps[i];
             if (s.kind == K_ALLOC && s.a == a && s.L >= 0) locs.insert(LOCS[s.L].id);
@@ -375,7 +383,7 @@ static void gen_random(Builder& b, vf::Rng& r) {
     std::vector<int> locs;
     int k = r.range(2, 4);
     if (r.chance(30)) { locs.push_back(0); locs.push_back(3); }      // alias pair
-    while ((int) locs.size() < k) { int L = (int) r.below(NLOC); if (std::find(locs.begin(), locs.end(), L) == locs.end()) locs.push_back(L); }
+    while ((int) locs.size() < k) { int L = (int) r.below(NLOC_RANDOM); if (std::find(locs.begin(), locs.end(), L) == locs.end()) locs.push_back(L); }
     if (r.chance(10)) { locs.resize(1); }                            // single-location history (trivial by the rule, still judged)
     int H = r.range(5, 40), phases = 1 + (int) r.below(3);
     auto pickloc = [&]() { return r.chance(50) ? locs[0] : locs[r.below(locs.size())]; };
@@ -456,7 +464,7 @@ static void init_enum() {
     for (int w = 0; w < 4; w++) {
         Workload W; W.N = NS[w]; W.pairs = w < 2;
         vf::Rng r(0xC15, (uint64_t) w, 7);
-        int cnt[NLOCID] = { 0, 0, 0, 0, 0 };
+        int cnt[NLOCID] = {};
         static const int LS[] = { 0, 1, 2, 3 };      // ids 0,1,2 (3 is the alias of 0)
         for (int i = 0; i < W.N; i++) {
             int L = LS[r.below(4)];
@@ -503,11 +511,66 @@ static void sec_fault_enum(vf::Ctx& c) {
     c.count(d2 >= 0 ? "fault_points_pairs" : "fault_points_single");
 }
 
+// ================================================================ location names that are easily confused (complete table)
+// "the n-th allocation at a given source location": a location is the whole (file text, line). For every position p in
+// 0..NAME_PMAX a pair of names X (designated) / Y (allocated from, same line) is built whose first difference is at p:
+//   kind 0: equal length, one other character at p      kind 1: one letter at p differs in case only
+//   kind 2: Y is the proper prefix X[0..p) of X          kind 3: X is the proper prefix Y[0..p) of Y
+// (names of 1..NAME_PMAX+10 characters: every comparison that looks at a bounded prefix / a bounded copy / a hash of a
+// bounded part of the name has its bound in this range or is out of reach of realistic paths). The model keeps X and Y
+// apart; a fixed interleaving of allocations at Y and X runs directly and behind all three families.
+static char name_base_char(int i) { return i % 11 == 0 ? '/' : (char) ('a' + (i * 7 + 3) % 26); }
+static void sec_name_discrimination(vf::Ctx& c) {
+    uint64_t i = c.idx;
+    int mode = (int) (i % 2); i /= 2; bool withY = i % 2; i /= 2; int n = 1 + (int) (i % 2); i /= 2; int tail = (i % 2) ? 9 : 0; i /= 2; int kind = (int) (i % 4); i /= 4;
+    int p = (int) i;
+    int lenX, lenY;
+    if (kind <= 1) lenX = lenY = p + 1 + tail; else if (kind == 2) { lenX = p + 1 + tail; lenY = p; } else { lenX = p; lenY = p + 1 + tail; }
+    for (int k = 0; k < lenX; k++) DYN_X[k] = name_base_char(k); DYN_X[lenX] = 0;
+    for (int k = 0; k < lenY; k++) DYN_Y[k] = name_base_char(k); DYN_Y[lenY] = 0;
+    if (kind == 0) DYN_Y[p] = DYN_X[p] == 'q' ? 'r' : 'q';
+    if (kind == 1) { if (DYN_X[p] == '/') DYN_X[p] = 'm'; DYN_Y[p] = (char) (DYN_X[p] - 'a' + 'A'); }
+    static const char* KN[] = { "other-character-at-p", "case-of-letter-at-p", "allocated-name-is-prefix-of-designated", "designated-name-is-prefix-of-allocated" };
+    static const int ALL0[3] = { 0, 0, 0 };
+    Builder b(mode, 1, mode == MODE_INSTALLED ? ALL0 : NULL, false);
+    b.note = vf::J().k("first_difference_at", p).k("kind", KN[kind]).k("designated_name_length", lenX).k("other_name_length", lenY).k("designated_index", n).k("other_name_designated_too", withY)
+        .k("designated_name", DYN_X).k("other_name", DYN_Y).str();
+    if (lenX == 0 || lenY == 0) { { std::string nd = b.note; c.begin([nd] { return nd; }); } c.count("name_pair_with_empty_name_not_run"); return; }     // an empty file name is not a source location
+    int m = n % 2 + 1;
+    if (withY && (c.idx & 64)) b.reg(0, true, m, L_DYN_Y);
+    b.reg(0, true, n, L_DYN_X);
+    if (withY && !(c.idx & 64)) b.reg(0, true, m, L_DYN_Y);
+    static const int SEQ[] = { L_DYN_Y, L_DYN_Y, L_DYN_X, L_DYN_Y, L_DYN_X, L_DYN_X, L_DYN_Y, L_DYN_X };
+    static const int FL[] = { F_MALLOC, F_NEW, F_NEWA, F_CALLOC, F_STRDUP, F_STRNDUP };
+    int k = 0;
+    auto one = [&](int L) { int fam = mode == MODE_DIRECT ? F_DIRECT : FL[(p + kind + k) % 6]; b.alloc(0, L, fam, 5 + (p + 3 * k) % 40, fam == F_CALLOC ? 4 : fam == F_STRNDUP ? (p + k) % 60 : 0); k++; };
+    for (int L : SEQ) one(L);
+    b.check(0); b.clear(0);
+    one(L_DYN_Y); one(L_DYN_X);
+    b.check(0);
+    run_and_judge(c, b, "name:" + std::to_string(c.idx), true);
+    c.count("name_pair_cases");
+    c.count(std::string("name_pair_") + KN[kind]);
+    int common = p;
+    c.count(common < 16 ? "name_pair_common_prefix_0_15" : common < 64 ? "name_pair_common_prefix_16_63" : common < 128 ? "name_pair_common_prefix_64_127" : common < 256 ? "name_pair_common_prefix_128_255" : "name_pair_common_prefix_256_up");
+    DYN_X[0] = DYN_Y[0] = 0;
+}
+
 // ================================================================ C level: countdown / out-of-memory / restore
-enum { CO_MALLOC, CO_MALLOC_NL, CO_CALLOC, CO_CALLOC_NL, CO_STRDUP, CO_STRDUP_NL, CO_STRNDUP, CO_STRNDUP_NL, CO_REALLOC, CO_REALLOC_NULL, CO_FREE, CO_SET_COUNTDOWN, CO_SET_OOM, CO_RESTORE, CO_N };
-static const char* CO_NAME[] = { "malloc", "malloc-noloc", "calloc", "calloc-noloc", "strdup", "strdup-noloc", "strndup", "strndup-noloc", "realloc", "realloc-from-null", "free", "countdown", "set_out_of_memory", "set_not_out_of_memory" };
+enum { CO_MALLOC, CO_MALLOC_NL, CO_CALLOC, CO_CALLOC_NL, CO_STRDUP, CO_STRDUP_NL, CO_STRNDUP, CO_STRNDUP_NL, CO_REALLOC, CO_REALLOC_NULL, CO_FREE, CO_SET_COUNTDOWN, CO_SET_OOM, CO_RESTORE, CO_SWITCH, CO_N };
+static const char* CO_NAME[] = { "malloc", "malloc-noloc", "calloc", "calloc-noloc", "strdup", "strdup-noloc", "strndup", "strndup-noloc", "realloc", "realloc-from-null", "free", "countdown", "set_out_of_memory", "set_not_out_of_memory", "switch-malloc-allocator" };
 static bool co_malloc_type(int op) { return op <= CO_STRNDUP_NL; }
-struct CStep { int op, n, size, aux, victim; int obs; bool content_bad; bool skipped; bool noop; };
+struct CStep { int op, n, size, aux, victim; int d[2], dl; int obs; int served; bool content_bad; bool skipped; bool noop; };
+// The malloc allocator the test has put in effect: the standard one (0) or one of two failable allocators that count the
+// requests reaching them (1, 2). All carry the standard allocator's name: releasing a block while another one of them is
+// current is then no allocator mismatch for cpputest (releases are outside the statement).
+struct TaggedFailable : public FailableMemoryAllocator {
+    int received;
+    TaggedFailable() : FailableMemoryAllocator("Standard Malloc Allocator", "malloc", "free"), received(0) {}
+    virtual char* alloc_memory(size_t size, const char* file, size_t line) CPPUTEST_OVERRIDE { received++; return FailableMemoryAllocator::alloc_memory(size, file, line); }
+};
+static TaggedFailable g_T[2];
+static const char* EFF_NAME[] = { "standard", "failable-1", "failable-2" };
 static CStep g_csteps[MAXSTEPS]; static int g_ncsteps;
 struct CLive { void* p; int size; unsigned char fill; };
 static CLive g_clive[MAXLIVE]; static int g_nclive;
@@ -519,7 +582,18 @@ static void c_body() {
     for (int i = 0; i < g_ncsteps; i++) {
         CStep& s = g_csteps[i];
         void* p = NULL; int eff = s.size; size_t sz = (size_t) s.size; const char* src;
+        int rcv0 = g_T[0].received, rcv1 = g_T[1].received;
         switch (s.op) {
+        case CO_SWITCH:       // the test installs another malloc allocator (never while an injection is armed)
+            if (s.n == 0) setCurrentMallocAllocator(defaultMallocAllocator());
+            else {
+                TaggedFailable& t = g_T[s.n - 1];
+                t.clearFailedAllocs();
+                for (int k = 0; k < 2; k++) if (s.d[k] > 0) t.failAllocNumber(s.d[k]);
+                if (s.dl > 0) t.failNthAllocAt(s.dl, "m.c", 5);
+                setCurrentMallocAllocator(&t);
+            }
+            s.obs = O_OK; continue;
         case CO_SET_COUNTDOWN: cpputest_malloc_set_out_of_memory_countdown(s.n); armed = true; oom_seen = false; s.obs = O_OK; continue;
         case CO_SET_OOM: cpputest_malloc_set_out_of_memory(); armed = true; oom_seen = false; s.obs = O_OK; continue;
         case CO_RESTORE: cpputest_malloc_set_not_out_of_memory(); armed = false; oom_seen = false; s.obs = O_OK; continue;
@@ -558,12 +632,15 @@ static void c_body() {
             if (p && (strlen((char*) p) != want || memcmp(p, src, want) != 0)) s.content_bad = true; break; }
         }
         s.obs = p ? O_OK : O_NULL;
+        s.served = (g_T[0].received != rcv0 ? 1 : 0) | (g_T[1].received != rcv1 ? 2 : 0);
         if (!p && armed) oom_seen = true;
         if (p && g_nclive < MAXLIVE) { CLive& b = g_clive[g_nclive++]; b.p = p; b.size = eff; b.fill = (unsigned char) (0x30 + i % 160); memset(p, b.fill, (size_t) eff); }
     }
     cpputest_malloc_set_not_out_of_memory();
+    setCurrentMallocAllocator(defaultMallocAllocator());
     for (int k = 0; k < g_nclive; k++) cpputest_free_location(g_clive[k].p, "end.c", 1);
     g_nclive = 0;
+    for (TaggedFailable& t : g_T) t.clearFailedAllocs();
     g_c_done = true;
 }
 
@@ -581,9 +658,13 @@ struct CBuilder {
         CStep* s = push(k == 0 ? CO_FREE : k == 1 ? CO_REALLOC : CO_REALLOC_NULL);
         s->size = r.range(1, 64); s->victim = (int) r.below(1000); s->aux = (int) r.below(2);
     }
+    void sw(vf::Rng& r, int to = -1) {
+        CStep* s = push(CO_SWITCH); s->n = to >= 0 ? to : (int) r.below(3);
+        if (s->n > 0) { for (int k = 0; k < 2; k++) if (r.chance(55)) s->d[k] = r.range(1, 7); if (r.chance(30)) s->dl = r.range(1, 3); }
+    }
     std::string describe() const {
-        std::vector<std::string> it; char b[64];
-        for (int i = 0; i < n; i++) { const CStep& s = g_csteps[i]; if (s.op == CO_SET_COUNTDOWN) snprintf(b, sizeof b, "countdown(%d)", s.n); else if (s.op >= CO_FREE) snprintf(b, sizeof b, "%s", CO_NAME[s.op]); else snprintf(b, sizeof b, "%s %d", CO_NAME[s.op], s.size); it.push_back(vf::jstr(b)); }
+        std::vector<std::string> it; char b[96];
+        for (int i = 0; i < n; i++) { const CStep& s = g_csteps[i]; if (s.op == CO_SWITCH) snprintf(b, sizeof b, "install %s as malloc allocator (fail #%d #%d, #%d@m.c:5; 0 = none)", EFF_NAME[s.n], s.d[0], s.d[1], s.dl); else if (s.op == CO_SET_COUNTDOWN) snprintf(b, sizeof b, "countdown(%d)", s.n); else if (s.op >= CO_FREE) snprintf(b, sizeof b, "%s", CO_NAME[s.op]); else snprintf(b, sizeof b, "%s %d", CO_NAME[s.op], s.size); it.push_back(vf::jstr(b)); }
         return vf::J().k("level", "C").raw("steps", vf::jarr(it)).str();
     }
 };
@@ -616,6 +697,7 @@ static void c_run_and_judge(vf::Ctx& c, CBuilder& b, const std::string& sig) {
         // reset every global the C interface touches, whatever happened
         cpputest_malloc_set_not_out_of_memory();
         setCurrentMallocAllocatorToDefault();
+        for (TaggedFailable& t : g_T) { t.clearFailedAllocs(); t.received = 0; }
         if (fx.getFailureCount() > 0 || !g_c_done)
             viol_once(c, seen, "c-level:unexpected-test-failure", std::string("a test failure was recorded during the C-level workload: ") + std::string(fx.getOutput().asCharString()).substr(0, 400));
     }
@@ -624,15 +706,37 @@ static void c_run_and_judge(vf::Ctx& c, CBuilder& b, const std::string& sig) {
     bool armed = false, direct = false; int reqs_since_set = 0; bool restored_once = false;
     auto step_count = [](Cand& k) { if (!k.oom && k.remaining > 0) { k.remaining--; if (k.remaining == 0) k.oom = true; } };
     bool mixed = false, saw_fail = false, saw_ok_before = false;
+    // the malloc allocator the test put in effect (0 standard, 1/2 failable) and the failable one's designations.
+    // Its index is judged under two readings as well: it counts the requests that reach it (A) / every request made
+    // while it is in effect, also those the simulated out-of-memory answered (B); where they disagree both outcomes
+    // are accepted.
+    int eff = 0; bool eff_uncertain = false; int cntA = 0, cntB = 0, locA = 0, locB = 0; std::set<int> D; int DL = 0;
+    std::set<int> eff_of_earlier_episodes;
     for (int i = 0; i < b.n; i++) {
         const CStep& s = g_csteps[i];
         if (s.skipped) { c.count("c_steps_skipped_adaptively"); continue; }
         if (s.noop) continue;
         std::string nm = CO_NAME[s.op];
         std::string cls = s.op <= CO_MALLOC_NL ? "malloc" : s.op <= CO_CALLOC_NL ? "calloc" : s.op <= CO_STRDUP_NL ? "strdup" : s.op <= CO_STRNDUP_NL ? "strndup" : "realloc";
+        if (s.op == CO_SWITCH) {
+            eff = s.n; eff_uncertain = false; cntA = cntB = locA = locB = 0; D.clear(); for (int k = 0; k < 2; k++) if (s.d[k] > 0) D.insert(s.d[k]); DL = s.dl;
+            c.count(eff ? "c_switch_to_failable_malloc_allocator" : "c_switch_to_standard_malloc_allocator"); continue;
+        }
         if (s.op == CO_SET_COUNTDOWN) { for (Cand& k : cand) { k.alive = true; k.remaining = s.n; k.oom = s.n == 0; } armed = true; direct = false; reqs_since_set = 0; c.count("c_countdowns_set"); continue; }
         if (s.op == CO_SET_OOM) { for (Cand& k : cand) { k.alive = true; k.remaining = -1; k.oom = true; } armed = true; direct = true; reqs_since_set = 0; c.count("c_direct_oom_set"); continue; }
-        if (s.op == CO_RESTORE) { for (Cand& k : cand) { k.alive = true; k.remaining = -1; k.oom = false; } armed = false; restored_once = true; c.count("c_restores"); continue; }
+        if (s.op == CO_RESTORE) {
+            // Clearing an injection that never reached the out-of-memory state (countdown not expired, or nothing set) while a
+            // non-standard malloc allocator is in effect: the unchanged cpputest installs the standard allocator there
+            // (originalAllocator is still NULL). Observed and counted, not judged - see the final report of the check's author.
+            bool entered = armed; for (const Cand& k : cand) if (k.alive && !k.oom) entered = false;
+            if (eff != 0) { if (!entered) { eff_uncertain = true; c.count("c_restore_before_out_of_memory_was_entered_under_failable_allocator"); } else c.count("c_restore_after_out_of_memory_under_failable_allocator"); }
+            if (entered) {
+                bool other = false; for (int e : eff_of_earlier_episodes) if (e != eff) other = true;
+                if (other) c.count("c_restore_of_episode_under_other_allocator_than_an_earlier_episode");
+                eff_of_earlier_episodes.insert(eff);
+            }
+            for (Cand& k : cand) { k.alive = true; k.remaining = -1; k.oom = false; } armed = false; restored_once = true; c.count("c_restores"); continue;
+        }
         if (s.op == CO_FREE) { if (s.content_bad) viol_once(c, seen, "c-level:content:pattern-damaged-at-release", "step " + std::to_string(i)); c.count("c_free"); continue; }
         if (s.obs == O_NONE) { if (g_c_done) viol_once(c, seen, "c-level:step-not-executed", "step " + std::to_string(i)); continue; }
         bool failed = s.obs != O_OK;
@@ -643,20 +747,85 @@ static void c_run_and_judge(vf::Ctx& c, CBuilder& b, const std::string& sig) {
         bool pred[2];
         if (!isrealloc) { for (Cand& k : cand) step_count(k); pred[0] = cand[0].oom; pred[1] = cand[1].oom; reqs_since_set++; }
         else { pred[0] = false; step_count(cand[1]); pred[1] = cand[1].oom; }
+        // the failable allocator in effect: is this request one of its designated ones?
+        int recv = s.served;        // bit set of the failable allocators the request reached
+        bool desA = false, desB = false;
+        if (eff != 0 && !isrealloc) {
+            bool atloc = s.op == CO_MALLOC;
+            cntB++; if (atloc) locB++;
+            desB = D.count(cntB) != 0 || (atloc && DL > 0 && locB == DL);
+            if (recv == eff) { cntA++; if (atloc) locA++; desA = D.count(cntA) != 0 || (atloc && DL > 0 && locA == DL); }
+        }
+        // does candidate k explain the observation? 0 yes; otherwise the kind of disagreement
+        enum { JX_FITS = 0, JX_SHOULD_FAIL, JX_SHOULD_SUCCEED, JX_SERVED_BY_OTHER, JX_DESIGNATED_SUCCEEDED, JX_UNDESIGNATED_FAILED };
+        auto explains = [&](int k) -> int {
+            if (isrealloc) return pred[k] == failed ? JX_FITS : failed ? JX_SHOULD_SUCCEED : JX_SHOULD_FAIL;
+            if (pred[k]) return failed ? JX_FITS : JX_SHOULD_FAIL;
+            if (failed && recv == 0) return JX_SHOULD_SUCCEED;                       // NULL without any failable allocator having been asked
+            if (eff == 0) return recv == 0 ? JX_FITS : JX_SERVED_BY_OTHER;
+            if (recv == 0 && eff_uncertain) return JX_FITS;                             // (not failed) served by the standard allocator after a restore-before-expiry
+            if (recv != eff) return JX_SERVED_BY_OTHER;
+            if (failed == desA || failed == desB) return JX_FITS;
+            return failed ? JX_UNDESIGNATED_FAILED : JX_DESIGNATED_SUCCEEDED;
+        };
+        int ex[2] = { explains(0), explains(1) };
         bool any_ok = false;
-        for (int k = 0; k < 2; k++) if (cand[k].alive && pred[k] == failed) any_ok = true;
+        for (int k = 0; k < 2; k++) if (cand[k].alive && ex[k] == JX_FITS) any_ok = true;
         if (!any_ok) {
             std::string phase = armed ? (direct ? "out-of-memory" : "countdown") : (restored_once ? "after-restore" : "before-any-injection");
-            if (failed) viol_once(c, seen, "c-" + phase + ":failed-but-should-succeed:" + cls, "step " + std::to_string(i) + " (" + nm + ", request #" + std::to_string(reqs_since_set) + " since the injection was set) returned NULL");
-            else viol_once(c, seen, "c-" + phase + ":succeeded-but-should-fail:" + cls, "step " + std::to_string(i) + " (" + nm + ", request #" + std::to_string(reqs_since_set) + " since the injection was set) returned a block");
+            int why = cand[0].alive ? ex[0] : ex[1];
+            std::string where = "step " + std::to_string(i) + " (" + nm + ", request #" + std::to_string(reqs_since_set) + " since the injection was set, malloc allocator in effect: " + EFF_NAME[eff] + ")";
+            if (why == JX_SHOULD_SUCCEED) viol_once(c, seen, "c-" + phase + ":failed-but-should-succeed:" + cls, where + " returned NULL");
+            else if (why == JX_SHOULD_FAIL) viol_once(c, seen, "c-" + phase + ":succeeded-but-should-fail:" + cls, where + " returned a block");
+            else if (why == JX_SERVED_BY_OTHER) viol_once(c, seen, "c-" + phase + ":served-by-other-than-the-allocator-in-effect:" + (eff ? "failable" : "standard"), where + " was answered by " + (recv == 0 ? std::string("an allocator other than the installed failable ones") : std::string("failable allocator(s) bitset ") + std::to_string(recv)) + (failed ? " (NULL)" : " (block)"));
+            else if (why == JX_DESIGNATED_SUCCEEDED) viol_once(c, seen, "c-" + phase + ":failable-in-effect:designated-succeeded", where + " is request " + std::to_string(cntA) + " reaching the failable allocator (" + std::to_string(cntB) + " made), designated, but returned a block");
+            else viol_once(c, seen, "c-" + phase + ":failable-in-effect:undesignated-failed", where + " is request " + std::to_string(cntA) + " reaching the failable allocator (" + std::to_string(cntB) + " made), not designated, but returned NULL");
             break;      // later predictions depend on this one
         }
-        for (int k = 0; k < 2; k++) if (pred[k] != failed) cand[k].alive = false;
-        if (failed) { saw_fail = true; c.count("c_requests_failed_as_designated"); } else { if (armed) saw_ok_before = true; c.count("c_requests_succeeded"); }
+        bool by_oom = false;
+        for (int k = 0; k < 2; k++) { if (ex[k] != JX_FITS) cand[k].alive = false; else if (cand[k].alive && pred[k]) by_oom = true; }
+        if (failed && !by_oom && !isrealloc) c.count("c_failable_in_effect_designation_fired");
+        else if (failed) { saw_fail = true; c.count("c_requests_failed_as_designated"); } else { if (armed) saw_ok_before = true; c.count("c_requests_succeeded"); }
+        if (!failed && !isrealloc) {
+            if (eff != 0 && recv == eff) { c.count(desA != desB ? "c_failable_in_effect_designation_reading_ambiguous" : "c_request_served_by_failable_in_effect"); if (restored_once && !armed) c.count("c_request_served_by_failable_in_effect_after_restore"); }
+            if (eff != 0 && recv == 0) c.count("c_request_served_by_standard_after_restore_before_expiry_dropped_the_failable_allocator");
+        }
         if (s.content_bad) viol_once(c, seen, "c-level:content:" + cls, "block content wrong at step " + std::to_string(i));
     }
     if (!cand[0].alive) c.count("c_reading_realloc_counts_needed");
     if (saw_fail && (saw_ok_before || mixed)) c.nontrivial(sig.empty() ? desc : sig);
+}
+
+// histories in which the test changes the malloc allocator between (and before) out-of-memory episodes
+static void sec_c_switch_random(vf::Ctx& c) {
+    CBuilder b; vf::Rng& r = c.rng;
+    int rounds = r.range(2, 4);
+    for (int k = 0; k < rounds; k++) {
+        if (r.chance(75)) b.sw(r);
+        int pre = (int) r.below(3);
+        for (int i = 0; i < pre; i++) { if (r.chance(25)) b.other(r); else b.malloc_type(r); }
+        int M = r.range(2, 10);
+        int n = r.chance(15) ? -1 : r.chance(10) ? r.range(M + 1, M + 2) : r.range(0, M);
+        c_round(b, r, n, M, r.chance(40));
+    }
+    c_run_and_judge(c, b, "");
+    c.count("histories_c_level_with_allocator_switches");
+}
+
+// complete: three episodes, each under one of the three malloc allocators, each a countdown that expires or the direct switch
+static void sec_c_switch_enum(vf::Ctx& c) {
+    uint64_t i = c.idx; CBuilder b; vf::Rng r(0xC15E, c.idx, 3);
+    for (int e = 0; e < 3; e++) {
+        int a = (int) (i % 3); i /= 3; int kind = (int) (i % 2); i /= 2;
+        CStep* s = b.push(CO_SWITCH); s->n = a; if (a) { s->d[0] = 2; s->d[1] = 5 + e; }
+        b.malloc_type(r, CO_MALLOC);
+        if (kind == 0) { b.push(CO_SET_COUNTDOWN)->n = 2; b.malloc_type(r, CO_STRDUP); b.malloc_type(r, CO_MALLOC_NL); b.malloc_type(r, CO_CALLOC); }
+        else { b.push(CO_SET_OOM); b.malloc_type(r, CO_MALLOC); b.malloc_type(r, CO_STRNDUP); }
+        b.push(CO_RESTORE);
+        b.malloc_type(r, CO_MALLOC); b.malloc_type(r, CO_CALLOC_NL); b.malloc_type(r, CO_STRDUP_NL);
+    }
+    c_run_and_judge(c, b, "cswitch:" + std::to_string(c.idx));
+    c.count("c_allocator_switch_points");
 }
 
 static void sec_c_random(vf::Ctx& c) {
@@ -761,12 +930,15 @@ int main(int argc, char** argv) {
     init_enum(); init_cenum();
     std::vector<vf::Section> S = {
         { "fault_enumeration", enum_total, enum_total, sec_fault_enum, true },
+        { "location_name_discrimination", 2 * 2 * 2 * 2 * 4 * (NAME_PMAX + 1), 2 * 2 * 2 * 2 * 4 * (NAME_PMAX + 1), sec_name_discrimination, true },
         { "c_countdown_enumeration", cenum_total, cenum_total, sec_c_enum, true },
         { "c_realloc_null_in_oom", 24, 24, sec_c_realloc_null, true },
+        { "c_episodes_x_malloc_allocators", 6 * 6 * 6, 6 * 6 * 6, sec_c_switch_enum, true },
         { "global_designation_after_earlier_allocations", 7 * 4 * 3 * 3 * 2, 7 * 4 * 3 * 3 * 2, sec_late_global, true },
         { "failable_direct_random", 20000, 300000, sec_direct_random, false },
         { "failable_installed_random", 16000, 250000, sec_installed_random, false },
         { "c_countdown_random", 8000, 120000, sec_c_random, false },
+        { "c_episodes_with_allocator_switches_random", 6000, 100000, sec_c_switch_random, false },
     };
     return vf::harness_main(argc, argv, S, nullptr);
 }
